@@ -109,6 +109,14 @@ def check_inputs_unchanged(res, case, arrs, before):
             return
 
 
+def soft(res, where, case, impl, ref):
+    """Something the property TEXT does not state (behaviour on malformed input, exact exception classes, API results that are not part of
+    the encoding, values of derived conveniences) differs from an independent reference: reported like a model/implementation disagreement --
+    the tie is broken, `no-failing-input-found` -- never as a violation with a concrete replay (HARDENING_CHECKLIST item 14)."""
+    res.count("reference-only." + where)
+    res.disagree("C01:reference:" + where, {"case": case}, str(impl)[:600], str(ref)[:600])
+
+
 def map_sig(tm):
     return [(str(a), S.bits(b), int(c)) for a, b, c in zip(*tm)]
 
@@ -385,7 +393,7 @@ def ste_oracle(res, case, s):
         got, st = None, S.err_tok(e)
     want = sup if isinstance(sup, str) else ("none" if sup is None else "arr")
     if st != want:
-        res.fail("single_treatment_effects: None / array / error differs from the monotherapy coverage of the rows", case, st, want, signature="C01:ste:status")
+        soft(res, "ste:status", case, st, want)
     elif st == "arr":
         got = np.asarray(got)
         ok = got.shape == (len(sids), int(s.treatment_arity))
@@ -396,8 +404,7 @@ def ste_oracle(res, case, s):
                 w = 1.0 if cell is None else sum(obs[j] for j in cell) / len(cell)
                 ok = abs(float(got[i, c]) - w) <= 1e-9 * max(1.0, abs(w))
         if not ok:
-            res.fail("single_treatment_effects is not 1.0 on control slots / the mean of the monotherapy observations elsewhere", case, got.tolist(),
-                     support_tok(sup), signature="C01:ste:value")
+            soft(res, "ste:value", case, got.tolist(), support_tok(sup))
     res.count("ste." + st)
     return support_tok(sup)
 
@@ -420,7 +427,7 @@ def derived_oracle(res, case, raw, s):
         len(s.sample_mapping[0]), len(s.treatment_mapping[0])))
     got = derived_tok(s)
     if got != want:
-        res.fail("derived property of a screen differs from its value recomputed from the id arrays", case, got, want, signature="C01:derived")
+        soft(res, "derived", case, got, want)
     return "ok " + got
 
 
@@ -489,8 +496,16 @@ def api_case(res, case, es, ctrl, tm, sm, produced, queue=None):
         except Exception as e:      # noqa: BLE001
             return ("err", S.err_tok(e))
 
+    HARD = ("ids-of-name", "inverse", "id-from-name:present", "name-from-id:present")
+
     def fail(what, observed, required, sig):
-        res.fail(what, case, observed, required, signature="C01:api:" + sig)
+        # the property text covers the decode direction of the encoding for mappings batchie produced: ids of a name, name <-> id of
+        # PRESENT samples. Everything else (doses / type counts, hand-made mappings, what happens for absent names, exception classes)
+        # is compared with the reference and the model only.
+        if produced and sig in HARD:
+            res.fail(what, case, observed, required, signature="C01:api:" + sig)
+        else:
+            soft(res, "api:" + sig, case, {"what": what, "observed": observed}, required)
 
     counts = call(lambda: (int(es.n_unique_treatments), int(es.n_unique_samples), int(es.n_unique_treatment_types), int(es.n_unique_doses)))
     if counts[0] != "ok":
@@ -521,7 +536,8 @@ def api_case(res, case, es, ctrl, tm, sm, produced, queue=None):
         m = [sm[1][i] for i in range(len(sm[0])) if sm[0][i] == n]
         w = ("ok", m[0]) if len(m) == 1 else ("err", "err:ValueError")
         if r != w:
-            fail("sample_id_from_sample_name: the id of the single matching row, ValueError for 0 or >= 2 matches", {"name": n, "got": r[1]}, w[1], "id-from-name")
+            fail("sample_id_from_sample_name: the id of the single matching row, ValueError for 0 or >= 2 matches", {"name": n, "got": r[1]}, w[1],
+                 "id-from-name:present" if w[0] == "ok" else "id-from-name")
         if produced and r[0] == "ok":
             back = call(lambda: str(es.sample_name_from_sample_id(r[1])))
             if back != ("ok", n):
@@ -533,7 +549,8 @@ def api_case(res, case, es, ctrl, tm, sm, produced, queue=None):
         m = [sm[0][k] for k in range(len(sm[0])) if sm[1][k] == i]
         w = ("ok", m[0]) if len(m) == 1 else ("err", "err:ValueError")
         if r != w:
-            fail("sample_name_from_sample_id: the name of the single matching row, ValueError for 0 or >= 2 matches", {"id": i, "got": r[1]}, w[1], "name-from-id")
+            fail("sample_name_from_sample_id: the name of the single matching row, ValueError for 0 or >= 2 matches", {"id": i, "got": r[1]}, w[1],
+                 "name-from-id:present" if w[0] == "ok" else "name-from-id")
         if produced and r[0] == "ok":
             back = call(lambda: int(es.sample_id_from_sample_name(r[1])))
             if back != ("ok", i):
@@ -576,13 +593,11 @@ def combine_case(res, case, raws, queue=None):
     if t is None and must_ok:
         res.fail("combine / concat of compatible screens raises", case, out, "a screen", signature="C01:combine:raises")
     if t is not None and not must_ok:
-        res.fail("combine / concat of incompatible screens (control name, arity, or a plate observed in one and unobserved in the other) accepted", case,
-                 out[:200], "ValueError", signature="C01:combine:accepted")
+        soft(res, "combine:incompatible-accepted", case, out[:200], "ValueError")
     if t is not None and must_ok:
         want = tuple(sum((list(b[0][k]) for b in before), []) for k in range(6))
         if rows_sig(t) != want:
-            res.fail("combine / concat: rows are not the parts' rows concatenated in order", case, [x[:6] for x in rows_sig(t)], [x[:6] for x in want],
-                     signature="C01:combine:rows")
+            soft(res, "combine:rows", case, [x[:6] for x in rows_sig(t)], [x[:6] for x in want])
         else:
             craw = dict(ctrl=raws[0]["ctrl"], arity=raws[0]["arity"], tnames=sum((r["tnames"] for r in praws), []), tdoses=sum((r["tdoses"] for r in praws), []),
                         snames=sum((r["snames"] for r in praws), []), pnames=sum((r["pnames"] for r in praws), []), obs=None, mask=None, tmap=None, smap=None)
@@ -625,10 +640,195 @@ def combine_stream(ctx, res, rng, queue):
         combine_case(res, case, raws, queue)
 
 
+# ---------------------------------------------------------------- HARDENING_CHECKLIST items 10, 12, 13
+
+def view_props(obj):
+    """every property of the object's class, by introspection, canonical and comparable"""
+    out = {}
+    for k in type(obj).__mro__:
+        for n, o in vars(k).items():
+            if isinstance(o, property) and n not in out and n != "plates":
+                try:
+                    out[n] = _canon(getattr(obj, n))
+                except Exception as e:      # noqa: BLE001
+                    out[n] = "raises:" + type(e).__name__
+    return out
+
+
+def _canon(x):
+    if isinstance(x, np.ndarray):
+        return [_canon(e) for e in x]
+    if isinstance(x, (float, np.floating)):
+        return ("f", S.bits(x))
+    if isinstance(x, np.generic):
+        return x.item()
+    if isinstance(x, (list, tuple)):
+        return [_canon(e) for e in x]
+    return x
+
+
+def temporaries_class(ctx, res, rng, queue):
+    """item 10: results obtained from TEMPORARIES (built, used once, dropped -- CPython hands the freed address to the next one) must be those of
+    retained objects: screens / experiment spaces of one shape but different content in a loop, only the result kept"""
+    from batchie.data import ExperimentSpace
+    for t in range(ctx.scale(6, 60)):
+        n, a = rng.randint(2, 6), rng.choice([1, 2])
+        raws = []
+        for j in range(6):
+            r = S.gen_raw(rng, n_max=n, arity=a)
+            while len(r["snames"]) != n:
+                r = S.gen_raw(rng, n_max=n, arity=a)
+            raws.append(r)
+        case = {"kind": "temporaries", "raws": raws}
+        res.evaluations += 1
+        res.count("class.temporaries")
+        temporaries_case(res, case, raws)
+
+
+def temporaries_case(res, case, raws):
+    from batchie.data import ExperimentSpace
+    # results of temporaries, nothing else kept
+    temp = [S.show_screen(S.build(r)) for r in raws]
+    temp_sp = [(int(ExperimentSpace.from_screen(S.build(r)).n_unique_treatments), int(ExperimentSpace.from_screen(S.build(r)).n_unique_samples)) for r in raws]
+    kept = [S.build(r) for r in raws]       # all alive at once: distinct addresses
+    for j, (r, k) in enumerate(zip(raws, kept)):
+        sub = dict(case, which=j)
+        oracle(res, sub, r, k)
+        if temp[j] != S.show_screen(k):
+            res.fail("ids / mappings of a screen built as a temporary differ from those of the same screen built and retained (decode through a stale result)",
+                     sub, temp[j][:300], S.show_screen(k)[:300], signature="C01:temporaries")
+        es = ExperimentSpace.from_screen(k)
+        if temp_sp[j] != (int(es.n_unique_treatments), int(es.n_unique_samples)):
+            res.fail("experiment-space sizes taken from a temporary differ from those of a retained object", sub, temp_sp[j],
+                     [int(es.n_unique_treatments), int(es.n_unique_samples)], signature="C01:temporaries:space")
+
+
+def instalments_class(ctx, res, rng, tmpdir):
+    """item 12: (a) ExperimentSpace.save_h5 twice to the SAME path with other content: the file is the second content; (b) the union built in
+    instalments (a.combine(b).combine(c), Screen.concat([a, b, c])) and in one Screen(...) call agree on EVERY property, by introspection"""
+    for t in range(ctx.scale(12, 150)):
+        k = rng.choice([2, 3, 3])
+        arity = rng.choice([1, 2, 2, 3])
+        ctrl = rng.choice(["", "control", "dmso"])
+        names = rng.sample(S.NAME_POOL, rng.randint(2, 4))
+        plates = rng.sample(S.NAME_POOL, 6)
+        raws = []
+        for j in range(k):
+            r = S.gen_raw(rng, n_max=6, arity=arity, ctrl=ctrl, names=names + [ABSENT_NAMES[j]], with_obs=True, all_observed=None)
+            pool = plates[2 * j:2 * j + 2]
+            st = {q: rng.random() < 0.5 for q in pool}
+            r["pnames"] = [rng.choice(pool) for _ in r["snames"]]
+            r["mask"] = [st[q] for q in r["pnames"]]
+            raws.append(r)
+        case = {"kind": "instalments", "raws": raws}
+        res.evaluations += 1
+        res.count("class.instalments")
+        instalments_case(res, case, raws, tmpdir)
+
+
+def instalments_case(res, case, raws, tmpdir):
+    from batchie.data import Screen, ExperimentSpace
+    parts = [S.build(r) for r in raws]
+    step = parts[0]
+    for p_ in parts[1:]:
+        step = step.combine(p_)
+    once = Screen.concat(parts)
+    allraw = dict(ctrl=raws[0]["ctrl"], arity=raws[0]["arity"], tnames=sum((r["tnames"] for r in raws), []), tdoses=sum((r["tdoses"] for r in raws), []),
+                  snames=sum((r["snames"] for r in raws), []), pnames=sum((r["pnames"] for r in raws), []), obs=sum((r["obs"] for r in raws), []),
+                  mask=sum((r["mask"] for r in raws), []), tmap=None, smap=None)
+    direct = S.build(allraw)
+    oracle(res, case, allraw, step)
+    ref = view_props(direct)
+    for nm, scr in (("a.combine(b).combine(c)", step), ("Screen.concat([a, b, c])", once)):
+        got = view_props(scr)
+        diff = sorted(k for k in set(ref) | set(got) if ref.get(k) != got.get(k))
+        if diff:
+            res.fail("the union built in instalments differs from the same rows built in one Screen(...) call (ids / mappings / rows, by introspection)",
+                     case, {"how": nm, "properties": diff, "got": str(got.get(diff[0]))[:300]}, str(ref.get(diff[0]))[:300], signature="C01:instalments:combine")
+            return
+    # save twice to the same path: first the space of part 0, then the space of the union
+    path = os.path.join(tmpdir, "twice.h5")
+    first, second = ExperimentSpace.from_screen(parts[0]), ExperimentSpace.from_screen(step)
+    if len(first.treatment_mapping[0]) == 0 or len(second.treatment_mapping[0]) == 0 or len(first.sample_mapping[0]) == 0:
+        return
+    first.save_h5(path)
+    second.save_h5(path)
+    back = ExperimentSpace.load_h5(path)
+    if map_sig(back.treatment_mapping) != map_sig(step.treatment_mapping) or smap_sig(back.sample_mapping) != smap_sig(step.sample_mapping):
+        res.fail("experiment space saved to a path that already held another space does not carry the mapping verbatim", case,
+                 S.show_tmap(back.treatment_mapping)[:300], S.show_tmap(step.treatment_mapping)[:300], signature="C01:instalments:save-twice")
+    n = len(step.sample_ids)
+    if n and (int(np.asarray(step.treatment_ids).max()) >= int(back.n_unique_treatments) and int(np.asarray(step.treatment_ids).max()) >= 0
+              or int(np.max(step.sample_ids)) >= int(back.n_unique_samples)):
+        res.fail("sizes of an experiment space saved over another one do not bound the ids", case,
+                 [int(back.n_unique_treatments), int(back.n_unique_samples)], "strict bounds", signature="C01:instalments:save-twice:bound")
+
+
+def wide_raw(rng, m, what):
+    """a screen with exactly `m` distinct non-control treatments / samples / plates (ids 0..m-1 straddle the int8 / uint8 boundaries)"""
+    a = rng.choice([1, 2])
+    nm = lambda i: "n%03d" % i
+    n = m + rng.randint(0, 3)
+    base = [i % m for i in range(n)]
+    rng.shuffle(base)
+    small = lambda: rng.randrange(3)
+    if what == "treatments":
+        tn = [[nm(i)] + [rng.choice(["", nm(rng.randrange(m))]) for _ in range(a - 1)] for i in base]
+        td = [[1.0] + [rng.choice([0.0, 1.0]) for _ in range(a - 1)] for _ in base]
+        sn = ["s%d" % small() for _ in base]
+        pn = ["p%d" % small() for _ in base]
+    elif what == "samples":
+        tn = [[rng.choice(["a", "b", ""]) for _ in range(a)] for _ in base]
+        td = [[rng.choice([0.0, 1.0, 2.0]) for _ in range(a)] for _ in base]
+        sn = [nm(i) for i in base]
+        pn = ["p%d" % small() for _ in base]
+    else:
+        tn = [[rng.choice(["a", "b", ""]) for _ in range(a)] for _ in base]
+        td = [[rng.choice([0.0, 1.0, 2.0]) for _ in range(a)] for _ in base]
+        sn = ["s%d" % small() for _ in base]
+        pn = [nm(i) for i in base]
+    return dict(ctrl="", arity=a, tnames=tn, tdoses=td, snames=sn, pnames=pn, obs=[0.5] * n, mask=None, tmap=None, smap=None)
+
+
+def int_width_class(ctx, res, rng, tmpdir, queue):
+    """item 13: 127 / 128 / 255 / 256 / 257 distinct treatments, samples or plates, through Screen(...), a superset mapping, ExperimentSpace and save/load"""
+    sizes = [127, 128, 255, 256, 257]
+    picks = [(m, w) for m in sizes for w in ("treatments", "samples", "plates")]
+    if ctx.tier == "quick" and ctx.mode != "search":
+        picks = [(256, "treatments"), (257, "samples"), (128, "treatments"), (256, "plates"), (rng.choice(sizes), rng.choice(["treatments", "samples"]))]
+    for m, what in picks:
+        raw = wide_raw(rng, m, what)
+        supplied = rng.random() < 0.5
+        if supplied:
+            b = S.build(raw)
+            raw["tmap"] = ([str(x) for x in b.treatment_mapping[0]], [float(x) for x in b.treatment_mapping[1]], [int(x) for x in b.treatment_mapping[2]])
+            raw["smap"] = ([str(x) for x in b.sample_mapping[0]], [int(x) for x in b.sample_mapping[1]])
+            keep = sorted(rng.sample(range(len(raw["snames"])), max(1, len(raw["snames"]) - rng.randint(0, 3))))
+            for k in ("tnames", "tdoses", "snames", "pnames", "obs"):
+                raw[k] = [raw[k][i] for i in keep]
+        case = {"kind": "int-width", "raw": raw, "variant": "c", "vseed": 0}
+        res.evaluations += 1
+        res.count("class.int-width")
+        res.count("class.int-width.%s-%d" % (what, m))
+        s = S.build(raw)
+        oracle(res, case, raw, s)
+        sp = space_oracle(res, case, raw, s, tmpdir, True)
+        queue("mkscreen " + S.raw_to_tokens(raw), S.show_screen(s), case)
+        queue("espace " + S.raw_to_tokens(raw), sp, dict(case, kind="int-width:espace"))
+
+
+
+# the property text: "a supplied mapping is followed verbatim (or rejected if it does not cover the data or is not dense)";
+# the other malformed inputs (masks, lengths) are compared with the model only
+MAPPING_CLAUSES = ("bad-tmap-gap", "tmap-missing", "smap-missing", "smap-gap")
+
+
 def run(ctx, res):
     res.rule = RULE
     rng = ctx.subrng("c01")
     lines, expect, cases = [], [], []
+    # first, so that an identity-keyed cache is reported on a case whose replay re-creates the address reuse
+    temporaries_class(ctx, res, ctx.subrng("c01", "temporaries"), None)
     n_cases = ctx.scale(300, 5000, 3000)
     n_max = 14 if ctx.tier == "quick" else 40
     ex = list(exhaustive_raws(2 if ctx.tier == "quick" and ctx.mode != "search" else 3))
@@ -716,6 +916,12 @@ def run(ctx, res):
 
     api_stream(ctx, res, ctx.subrng("c01", "api"), queue)
     combine_stream(ctx, res, ctx.subrng("c01", "combine"), queue)
+    tmp2 = tempfile.mkdtemp(prefix="c01_")
+    try:
+        instalments_class(ctx, res, ctx.subrng("c01", "instalments"), tmp2)
+        int_width_class(ctx, res, ctx.subrng("c01", "int-width"), tmp2, queue)
+    finally:
+        shutil.rmtree(tmp2, ignore_errors=True)
     # malformed stream
     for t in range(ctx.scale(60, 600)):
         raw = S.gen_raw(rng, n_max=8)
@@ -787,8 +993,10 @@ def run(ctx, res):
             accepted = False
         # every malformed input of this stream must be rejected: a mixed plate mask, a mask without observations, ids with a gap,
         # and a mapping from which a (name, dose) / sample name of the data was removed (not covering)
-        if accepted:
-            res.fail("malformed input accepted", case, out[:200], "ValueError")
+        if accepted and m in MAPPING_CLAUSES:
+            res.fail("a supplied mapping that is not dense / does not cover the data was accepted", case, out[:200], "rejected")
+        elif accepted:
+            res.count("malformed-accepted." + m)        # not in the property text: compared with the model only
         lines.append("mkscreen " + S.raw_to_tokens(raw))
         expect.append(out)
         cases.append(case)
@@ -814,6 +1022,16 @@ def replay(ctx, case, res):
     if case["kind"] in ("combine", "concat"):
         combine_case(res, case, case["raws"])
         return
+    if case["kind"] == "temporaries":
+        temporaries_case(res, case, case["raws"])
+        return
+    if case["kind"] == "instalments":
+        tmpdir = tempfile.mkdtemp(prefix="c01_")
+        try:
+            instalments_case(res, case, case["raws"], tmpdir)
+        finally:
+            shutil.rmtree(tmpdir, ignore_errors=True)
+        return
     raw = case["raw"]
     try:
         s, arrs, before = build_variant(raw, case.get("variant", "c"), case.get("vseed", 0))
@@ -822,7 +1040,8 @@ def replay(ctx, case, res):
             res.fail("constructor raises on a valid screen", case, "%s: %s" % (type(e).__name__, e), "a screen")
         return
     if case["kind"].startswith("malformed"):
-        res.fail("malformed input accepted", case, S.show_screen(s)[:200], "ValueError")
+        if case["kind"].split(":", 1)[1] in MAPPING_CLAUSES:
+            res.fail("a supplied mapping that is not dense / does not cover the data was accepted", case, S.show_screen(s)[:200], "rejected")
         return
     check_inputs_unchanged(res, case, arrs, before)
     oracle(res, case, raw, s)
